@@ -437,6 +437,7 @@ pub fn two(seed: u64) -> Program {
     let mut g = Gen::new(seed);
     let knobs = g.knobs(false);
     let same_name = g.rng.chance(50);
+    let shared_name = g.rng.pick(&["store", "twin"]);
     let mut stores = vec![];
     let mut reds_of = vec![];
     for s in 0..2 {
@@ -445,7 +446,8 @@ pub fn two(seed: u64) -> Program {
         let reds: Vec<u32> = (0..nred).collect();
         let policy = if g.rng.chance(70) { Policy::Block } else { g.rng.pick(&[Policy::DropOldest, Policy::DropLatest]) };
         let cap = g.rng.pick(&CAPS);
-        let name = if same_name { "store".to_string() } else { format!("store{s}") };
+        // equal names: the default one or an explicit one; different names otherwise
+        let name = if same_name { shared_name.to_string() } else { format!("store{s}") };
         let builder = g.canonical_builder(&name, cap, policy, &reds, &[]);
         stores.push(StoreCfg { builder, droppable: g.rng.chance(40), stepper: None, ctor: 0 });
         reds_of.push(reds);
